@@ -103,6 +103,10 @@ func main() {
 				break
 			}
 			rep.Bound = b
+			rep.SampleTrace, rep.SampleSched = r.SampleTrace, r.SampleSched
+			if len(rep.SampleTrace) > 80 {
+				rep.SampleTrace = rep.SampleTrace[:80]
+			}
 		}
 		rep.WallS = time.Since(t0).Seconds()
 		if r.Failure != nil {
